@@ -47,6 +47,9 @@ func radiusServer() *net.UDPAddr {
 				switch pw {
 				case "good":
 					w.Write(r.Response(radius.CodeAccessAccept))
+				case "chal":
+					// a second factor is asked for: neither accepted nor rejected
+					w.Write(r.Response(radius.CodeAccessChallenge))
 				case "slow":
 					// never answers: the client times out
 				default:
@@ -73,7 +76,7 @@ func NewSys(withRadius bool, nmacs, nsids int) *Sys {
 		for sid := 1; sid <= nsids; sid++ {
 			ops := []string{"PADT", "LCPCR", "LCPACK", "LCPNAK", "LCPTERM", "LCPECHO", "PAPGOOD", "PAPBAD", "IPCPCR", "IPCPACK", "IP"}
 			if withRadius {
-				ops = append(ops, "PAPSLOW")
+				ops = append(ops, "PAPSLOW", "PAPCHAL")
 			}
 			for _, op := range ops {
 				s.events = append(s.events, core.Event{"op": op, "m": m, "sid": sid})
@@ -91,7 +94,23 @@ func (s *Sys) Config() map[string]any {
 }
 func (s *Sys) Events() []core.Event { return s.events }
 
-func mac(m int) net.HardwareAddr { return net.HardwareAddr{0x02, 0, 0, 0, 0x10, byte(m)} }
+// MACs 1 and 2 differ in the last octet only; MAC 3 is a "twin" of MAC 1 that differs from it in the first two
+// octets only (another vendor prefix, same NIC part), so an ownership test that looks at part of the address
+// confuses it with one of the others whichever part that is.
+func mac(m int) net.HardwareAddr {
+	if m == 3 {
+		return net.HardwareAddr{0xa6, 0x5e, 0, 0, 0x10, 1}
+	}
+	return net.HardwareAddr{0x02, 0, 0, 0, 0x10, byte(m)}
+}
+
+// macIndex is the inverse of mac.
+func macIndex(hw net.HardwareAddr) int {
+	if len(hw) == 6 && hw[0] == 0xa6 {
+		return 3
+	}
+	return int(hw[5])
+}
 
 var serverMAC = net.HardwareAddr{0x02, 0xaa, 0, 0, 0, 1}
 
@@ -181,7 +200,7 @@ func decode(frames [][]byte) []string {
 			out = append(out, "badhdr")
 			continue
 		}
-		to := int(dst[5])
+		to := macIndex(dst)
 		if et == pppoe.EtherTypePPPoEDiscovery {
 			name := map[uint8]string{pppoe.CodePADO: "PADO", pppoe.CodePADS: "PADS", pppoe.CodePADT: "PADT"}[h.Code]
 			out = append(out, fmt.Sprintf("%s/%d/to%d", name, h.SessionID, to))
@@ -262,6 +281,8 @@ func (in *inst) Apply(ev core.Event) map[string]any {
 		in.deliver(src, false, session(sid, pppoe.ProtocolPAP, pap(2, "user", "bad")))
 	case "PAPSLOW":
 		in.deliver(src, false, session(sid, pppoe.ProtocolPAP, pap(3, "user", "slow")))
+	case "PAPCHAL":
+		in.deliver(src, false, session(sid, pppoe.ProtocolPAP, pap(4, "user", "chal")))
 	case "IPCPCR":
 		in.deliver(src, false, session(sid, pppoe.ProtocolIPCP, lcp(pppoe.LCPCodeConfigRequest, 4, pppoe.SerializeLCPOptions([]pppoe.LCPOption{{Type: pppoe.IPCPOptIPAddress, Data: []byte{0, 0, 0, 0}}}))))
 	case "IPCPACK":
@@ -310,7 +331,7 @@ func (in *inst) Observe() map[string]any {
 		present[i] = true
 		hw, _ := net.ParseMAC(ss.ClientMAC)
 		if len(hw) == 6 {
-			owner[i] = int(hw[5])
+			owner[i] = macIndex(hw)
 		}
 		state[i] = ss.State
 		authed[i] = ss.Authenticated
